@@ -551,6 +551,12 @@ class Evaluator:
     def _assign(self, t: ast.AST, val: Any, env: Dict[str, Any], fn: FuncInfo, depth: int):
         if isinstance(t, ast.Name):
             env[t.id] = val
+        elif isinstance(t, (ast.Tuple, ast.List)) and isinstance(val, TAlt) and \
+                all(isinstance(x, TList) and len(x.items) == len(t.elts) and
+                    all(not isinstance(y, (RepL, AltL)) for y in x.items) for x in (val.a, val.b)):
+            # unpacking a conditional pair: each target is the conditional of the corresponding elements
+            for i, e in enumerate(t.elts):
+                self._assign(e, self._alt(val.cond, val.a.items[i], val.b.items[i]), env, fn, depth)
         elif isinstance(t, (ast.Tuple, ast.List)):
             items = val.items if isinstance(val, TList) else None
             for i, e in enumerate(t.elts):
